@@ -7,8 +7,8 @@ Local Open Scope N_scope.
 (** * Equality tests *)
 Lemma beq_eq a b : beq a b = bytes_eqb a b.
 Proof.
-  revert b; induction a as [|x a IH]; intros [|y b]; cbn; try reflexivity.
-  rewrite IH. destruct (Byte.eqb x y); reflexivity.
+  revert b; induction a as [|x a IH]; intros [|y b]; cbn; try reflexivity;
+    rewrite IH; destruct (Byte.eqb x y); reflexivity.
 Qed.
 
 Lemma beq_spec a b : reflect (a = b) (beq a b).
